@@ -230,6 +230,65 @@ func (c *Ctx) RuleMapOrder() *Result {
 	return res
 }
 
+// cellCollectedThenSorted: st is `cell = append(cell, ...)` inside the loop for a slice variable kept
+// in memory, a sort call on the cell follows the loop, and every other reading of the cell outside
+// the loop (loads, closures that capture it) comes after that sort.
+func (c *Ctx) cellCollectedThenSorted(st *ssa.Store, l *mapLoop) bool {
+	al, ok := st.Addr.(*ssa.Alloc)
+	if !ok {
+		return false
+	}
+	if _, isSlice := derefType(al.Type()).Underlying().(*types.Slice); !isSlice {
+		return false
+	}
+	ac, ok := isBuiltinCall(asInstr(st.Val), "append")
+	if !ok || len(ac.Call.Args) == 0 {
+		return false
+	}
+	if ld, isLd := ac.Call.Args[0].(*ssa.UnOp); !isLd || ld.X != ssa.Value(al) {
+		return false
+	}
+	var sorter *ssa.Call
+	var sortLoad ssa.Value
+	for _, r := range referrers(al) {
+		ld, isLd := r.(*ssa.UnOp)
+		if !isLd || l.region[ld.Block()] {
+			continue
+		}
+		for _, rr := range referrers(ld) {
+			if call, isCall := rr.(*ssa.Call); isCall && isSortCall(call) && !l.region[call.Block()] {
+				if sorter == nil || instrDominates(call, sorter) {
+					sorter, sortLoad = call, ld
+				}
+			}
+		}
+	}
+	if sorter == nil {
+		return false
+	}
+	for _, r := range referrers(al) {
+		in, isIn := r.(ssa.Instruction)
+		if !isIn || l.region[in.Block()] || ssa.Instruction(sortLoad.(*ssa.UnOp)) == r {
+			continue
+		}
+		switch x := r.(type) {
+		case *ssa.Store:
+			// the initial value, set before the loop
+			if !instrDominates(x, l.header.Instrs[0]) {
+				return false
+			}
+		case *ssa.UnOp, *ssa.MakeClosure:
+			if !instrDominates(sorter, in) {
+				return false
+			}
+		case *ssa.DebugRef:
+		default:
+			return false
+		}
+	}
+	return true
+}
+
 func describeMapOperand(v ssa.Value) string {
 	switch x := v.(type) {
 	case *ssa.Parameter:
@@ -290,6 +349,11 @@ func (c *Ctx) classifyMapLoop(l *mapLoop) (Verdict, string) {
 				}
 				if al := rootAlloc(x.Addr); al != nil && l.region[al.Block()] {
 					continue // storage created in this iteration (variadic argument arrays, temporaries)
+				}
+				// collect-then-sort on a variable that lives in memory because a closure captures it:
+				// cell = append(cell, ...) in the loop, sort(cell) behind it, every later use behind the sort
+				if c.cellCollectedThenSorted(x, l) {
+					continue
 				}
 				addEffect(in, "store at "+c.P.InstrPos(in))
 			case *ssa.MapUpdate:
@@ -662,7 +726,28 @@ func (c *Ctx) defFragmentFns() map[*ssa.Function]string {
 		if !isExp {
 			continue
 		}
-		out[fn] = c.checkDefFragment(fn, loops)
+		// map iterations that neither substitute nor update (a sorted list of names collected for a trace line)
+		// are not part of the fragment: MAP-ORDER classifies them on their own
+		var frag []*mapLoop
+		for _, l := range loops {
+			works := false
+			for b := range l.region {
+				for _, in := range b.Instrs {
+					switch x := in.(type) {
+					case *ssa.MapUpdate:
+						works = true
+					case *ssa.Call:
+						if f := staticCallee(&x.Call); isFn(f, "strings", "ReplaceAll") || isFn(f, "bytes", "ReplaceAll") || isFn(f, "strings", "Replace") || isFn(f, "bytes", "Replace") {
+							works = true
+						}
+					}
+				}
+			}
+			if works {
+				frag = append(frag, l)
+			}
+		}
+		out[fn] = c.checkDefFragment(fn, frag)
 	}
 	c.defFrag = out
 	return out
@@ -723,6 +808,20 @@ func (c *Ctx) checkDefFragment(fn *ssa.Function, loops []*mapLoop) string {
 		ua, ok := a.(*ssa.UnOp)
 		if !ok || !sameLoad(a, b) {
 			return false
+		}
+		// a parameter that a closure captured lives in a cell: loads of the cell are the same map as long as
+		// the cell is assigned once (the parameter itself)
+		if cell, isCell := ua.X.(*ssa.Alloc); isCell {
+			stores := 0
+			for _, r := range referrers(cell) {
+				if st, ok := r.(*ssa.Store); ok && st.Addr == ssa.Value(cell) {
+					stores++
+					if _, isPar := st.Val.(*ssa.Parameter); !isPar {
+						return false
+					}
+				}
+			}
+			return stores == 1
 		}
 		fa, ok := ua.X.(*ssa.FieldAddr)
 		if !ok {
@@ -1106,6 +1205,7 @@ func (c *Ctx) RuleDefFragment() *Result {
 
 var nondetFns = map[string]map[string]bool{
 	"time":                   {"Now": true, "Since": true, "Until": true},
+	"hash/maphash":           nil, // seeded at random in every process
 	"os":                     {"Getpid": true, "Getppid": true, "Hostname": true},
 	"runtime":                {"NumGoroutine": true, "Stack": true, "NumCPU": true, "GOMAXPROCS": true},
 	"math/rand":              nil, // any
